@@ -61,6 +61,10 @@ def loop_family() -> list[dict]:
     # two different jump targets: e jumps to the fan-in t first, then to the common ancestor r
     fam.append(P("twotargets", [S("r"), S("a", ["r"]), S("b0", ["r"]), S("b", ["b0"], tasks=[T("b.1", "poll", 1)]),
                                 S("t", ["a", "b"]), S("e", ["t"], tasks=[T("e.1", "jump2", 2, "t,r")])]))
+    # forward jump landing next to a join that has another prerequisite on the bypassed side ("router", "chord")
+    fam.append(P("fwdrouter", [S("a", tasks=[T("a.1", "jump", 1, "b")]), S("b", ["a"]), S("c", ["a"]), S("d", ["b", "c"])]))
+    fam.append(P("fwdchord", [S("a", tasks=[T("a.1", "jump", 1, "d")]), S("b", ["a"]), S("d", ["b"]), S("c", ["a"]),
+                              S("e", ["d", "c"])]))
     fam.append(P("fwdside", [S("a", tasks=[T("a.1", "jump", 1, "d")]), S("b", ["a"]), S("c", ["b"]), S("d", ["c"]),
                              S("y", ["a"])]))
     return fam
@@ -242,6 +246,10 @@ def plan(pid: str, tier: str, seed: int) -> dict:
                               + ([] if quick else [{"kind": "crash", "prog": p, "points": pts}
                                                    for p in progs
                                                    for pts in chunks(range(1, refs[p["name"]]["commits"] + 1, 2), 24)]),
+            extra_jobs=lambda refs: [   # the RunTask message itself is delivered 1..9 times without being handled (worker
+                # killed right after the poll), then the task fails transiently: the budget counts those deliveries
+                {"kind": "pollcrash", "prog": p, "cases": [k for k in (1, 5, 7, 8, 9)]}
+                for p in progs if p["name"] in ("tr1", "tr3", "trnc3")],
             mc=[(n, {"AnyOrder": "TRUE", "MaxWithhold": 1}, {}) for n in ("tr1", "tr3", "trnc3", "poll4", "trmid")]
                + [(n, {"AnyOrder": "FALSE"}, {}) for n in ("tr8", "tr9", "tr12", "trnc12", "trlast")]
                # the intended design (retry row carries the attempt count) satisfies the bound
@@ -364,7 +372,7 @@ def run(pid: str, tier: str, seed: int) -> int:
         if o["Ref"]["wf"] != o["Ideal"]["wf"] or any(o["Ref"]["st"].get(s) != o["Ideal"]["st"].get(s)
                                                      for s in o["Ref"]["st"] if s not in o["Racy"]):
             oracle_mismatch.append((p["name"], o["Ref"], o["Ideal"]))
-    jobs = pl["jobs"](refs)
+    jobs = pl["jobs"](refs) + (pl["extra_jobs"](refs) if pl.get("extra_jobs") else [])
     traces = ec.run_jobs(jobs)
     if pl.get("ref_as_trace"):
         for p in progs:
